@@ -1,16 +1,17 @@
 SPECIFICATION Spec
 CONSTANTS
-  NUp = 2
-  NDown = 2
-  Retries = 3
-  NegAttempts = 10
-  MaxLoss = 5
-  MaxNegLoss = 2
-  MaxRestarts = 0
+  NUp = 1
+  NDown = 1
+  Retries = 2
+  NegAttempts = 3
+  MaxLoss = 2
+  MaxNegLoss = 3
+  MaxRestarts = 2
   PeerModes <- ModesAll
   DenyReplies <- DenyOne
   AckTails <- TailsRssi
-  Bug = "sl_on_any_3_bytes"
+  Bug = "nr_only_on_success"
 INVARIANT PropertyHolds
 INVARIANT CompleteAtRest
+CONSTRAINT InQBound
 CHECK_DEADLOCK FALSE
